@@ -6,8 +6,7 @@ unsafe impl Sync for NoSend {}
 struct Wrapped<T, M> { items: std::vec::IntoIter<T>, _m: M }
 impl<T, M> Iterator for Wrapped<T, M> { type Item = T; fn next(&mut self) -> Option<T> { self.items.next() } }
 fn main() {
-    let col: Vec<String> = vec![String::from("a"), String::from("b"), String::from("c")];
+    let col: [u64; 2] = [7u64, 7u64];
     let it = col.into_con_iter();
-    let r = it.next();
-    if let Some(x) = r { let _y = x.clone(); }
+    std::thread::scope(|s| { s.spawn(|| { let _ = it.next(); }); });
 }
